@@ -103,6 +103,8 @@ func runBatch(t *testing.T, prop string, scen Scenario, seed uint64, first, coun
 	// absurd allocations become an attributable process death instead of machine pressure
 	syscall.Setrlimit(syscall.RLIMIT_AS, &syscall.Rlimit{Cur: 4 << 30, Max: 4 << 30})
 	debug.SetGCPercent(50)
+	// runaway recursion overflows a 128 MiB stack in milliseconds instead of growing towards 1 GiB for seconds
+	debug.SetMaxStack(128 << 20)
 	out := os.Getenv("VERIF_OUT")
 	sites := LoadSites(os.Getenv("VERIF_SITES"))
 	opt := map[string]string{}
